@@ -3417,6 +3417,25 @@ def check_C19(run):
         if op == 'add' and i_core.startswith('ok:') and not corrupted:
             second.append((kind, img, name, payload, bytes.fromhex(i_core[4:])))
     run.cov['disagreements_checked'] += len(lines)
+    # the hypothesis of C19_elf_roundtrip / C19_elf_preserved (the decidable layout predicate ValidElf) evaluated by the model driver on
+    # every ELF image of this run, corrupted or not: where it holds, the theorem promises that the add succeeds and the payload reads back -
+    # that conclusion is then checked on what the IMPLEMENTATION answered (so the theorem's hypothesis is tied to the generator's images,
+    # and its conclusion to the real functions, not only to the model)
+    elf_adds = [(l, m_, i_ans) for l, m_, i_ans in zip(lines, meta, impl) if m_[0] == 'elf' and m_[1] == 'add']
+    vl = [f'exe validelf {C.X(m_[3])} {C.X(m_[4])}' for _, m_, _ in elf_adds]
+    vans = C.run_model(vl, timeout=3600)
+    for (l, m_, i_ans), va in zip(elf_adds, vans):
+        kind, op, corrupted, img, name, payload = m_
+        run.count(f'elf:ValidElf={va}:' + ('corrupted' if corrupted else 'generated'))
+        if va not in ('valid', 'not-valid') and bad is None:
+            bad = dict(request_line=('exe validelf ' + l[:2000]), impl='-', model=va[:300])
+        if va == 'valid':
+            i_core = i_ans.split(' msg=')[0]
+            if not i_core.startswith('ok:'):
+                run.violation(dict(kind='oracle-failed-on-implementation', oracle='C19_elf_roundtrip on the implementation: an image that meets ValidElf is accepted by add_section_to_elf', layer='L1',
+                                   image=img.hex()[:4000], name=name, payload=payload.hex()[:400], impl=i_ans[:300])); break
+            if corrupted:
+                second.append((kind, img, name, payload, bytes.fromhex(i_core[4:])))     # (judged like a valid image: the payload must read back)
     # round trip + preservation oracle on the implementation
     l2_ = [f'exe ext{kind} {C.X(out)} {C.X(name)}' for kind, img, name, payload, out in second]
     back = [a for a, _ in C.run_harness(l2_, timeout=1800)]
@@ -3445,7 +3464,10 @@ def check_C19(run):
                 if n_o != n_i + 1: why = f'section count {n_i} -> {n_o}'
                 if sx_o != sx_i: why = why or f'names section index {sx_i} -> {sx_o}'
                 nm = name.encode() if isinstance(name, str) else name
+                shoff_i = struct.unpack_from('<Q', img, 0x28)[0]
                 for k_, ((oi, zi), (oo, zo)) in enumerate(zip(s_i, s_o)):
+                    if oi + zi > shoff_i:
+                        continue       # (a corrupted header: the 'section' is not a stretch of the file in front of the table; the preservation clause does not speak about it)
                     want_ = img[oi:oi + zi] + ((nm + b'\0') if k_ == sx_i else b'')
                     if out[oo:oo + zo] != want_:
                         why = why or f'section {k_}: contents altered (at {oi}+{zi} in the input, the output header says {oo}+{zo}: {out[oo:oo + zo].hex()[:40]} instead of {want_.hex()[:40]})'
@@ -3499,6 +3521,37 @@ def check_C19(run):
     for (fn, pc), l in sorted(new.items())[:2]:
         run.violation(dict(kind='oracle-failed-on-implementation', oracle='a malformed executable is rejected with an error rather than a crash (panic class not among the recorded ones)', layer='L1',
                            function=fn, panic_class=pc, request_line=l[:3000]))
+    # an executable linked by this machine's own toolchain meets the layout predicate of the ELF theorems (their hypothesis is not only
+    # satisfiable by my generator's images), the real add function accepts it, and the result still runs and holds the payload
+    d = l3.scratch()
+    try:
+        open(os.path.join(d, 't.c'), 'w').write('#include <stdio.h>\nint main(){puts("hi");return 0;}\n')
+        cc = subprocess.run(['clang', os.path.join(d, 't.c'), '-o', os.path.join(d, 't_elf')], capture_output=True, text=True)
+        if cc.returncode == 0:
+            tb = open(os.path.join(d, 't_elf'), 'rb').read()
+            va = C.run_model([f'exe validelf {C.X(tb)} {C.X(".rjembed")}'], timeout=600)[0]
+            open(os.path.join(d, 'pl'), 'wb').write(b'payload-\x00-bytes' * 3)
+            ans = C.run_harness(['exefile ' + ' '.join(C.X(x) for x in (os.path.join(d, 't_elf'), os.path.join(d, 't_aug'), os.path.join(d, 'pl'), '.rjembed'))])[0][0]
+            ran = None
+            if ans.startswith('ok:'):
+                os.chmod(os.path.join(d, 't_aug'), 0o755)
+                ran = subprocess.run([os.path.join(d, 't_aug')], capture_output=True, text=True)
+                back = C.run_harness([f'exe extelf {C.X(open(os.path.join(d, "t_aug"), "rb").read())} {C.X(".rjembed")}'])[0][0]
+            run.case(('toolchain-elf',), True, sample=dict(layer='L1', toolchain_elf_bytes=len(tb), ValidElf=va, add=ans[:20])); run.count('toolchain-elf:ValidElf=' + va)
+            if va != 'valid' or not ans.startswith('ok:') or ran.returncode != 0 or ran.stdout != 'hi\n' or back.split(' msg=')[0] != 'ok:x' + (b'payload-\x00-bytes' * 3).hex():
+                run.violation(dict(kind='oracle-failed-on-implementation', oracle='an executable linked by clang meets ValidElf, is accepted by add_section_to_elf, still runs, and the payload reads back', layer='L1',
+                                   ValidElf=va, add=ans[:200], ran=(ran.returncode, ran.stdout[:100]) if ran else None))
+        else:
+            run.count('toolchain-elf:clang-unavailable')
+        if thorough:
+            st = os.path.join(d, 'rj_stripped')
+            if subprocess.run(['llvm-strip', '-o', st, C.CLI_BIN], capture_output=True).returncode == 0:
+                va = C.run_model([f'exe validelf {C.X(open(st, "rb").read())} {C.X(".rjembed")}'], timeout=1800)[0]
+                run.case(('stripped-rjrssync',), True); run.count('stripped-rjrssync:ValidElf=' + va)
+                if va != 'valid':
+                    run.violation(dict(kind='tie-broken', tie='the (stripped) rjrssync binary built from this tree meets ValidElf', model=va), no_input=True)
+    finally:
+        shutil.rmtree(d, ignore_errors=True)
     # L4: the real binary
     d = l3.scratch()
     try:
@@ -3596,7 +3649,7 @@ def check_C19(run):
         shutil.rmtree(d, ignore_errors=True); sb.close()
     run.cov['panic_classes_seen'] = sorted(f'{a}:{b}' for a, b in panic_seen)
     run.cov['trusted_base'] = C.GLOBAL_TRUST + ['dev-profile integer semantics (overflow checks on) is what the harness and the suite run; the release profile differs only where an overflow occurs',
-                                                'PARTIAL: the general round-trip / preservation statement over all valid layouts is carried by the byte-exact correspondence + oracle, not by a Lean theorem; Windows loading of the PE result cannot be exercised here (no PE can run)',
+                                                'ELF64: round trip and preservation are theorems for every image meeting the decidable predicate ValidElf (evaluated on the generated images, on a clang-linked executable and (thorough) on the stripped rjrssync binary); PARTIAL for PE: the general round-trip / preservation statement is carried by the byte-exact correspondence + structural oracle, not by a Lean theorem; Windows loading of the PE result cannot be exercised here (no PE can run)',
                                                 'deployment of the augmented binary through fake scp + handshake is covered by C15\'s launch matrix']
 
 
